@@ -20,8 +20,79 @@ theorem transaction_fee_eq (ins outs : List Nat) :
   | (unfold Gen.transaction_fee; simp; done)
   | (unfold Gen.transaction_fee; omega)
 
-/-- the model's fee of a transaction is the translated function on the values the model looks up -/
-theorem model_fee_as_translated (u : Utxo) (t : CTx) (total : Nat) (h : inputsValue u t.tx.inputs = .ok total)
+/-- the model's sum over the inputs is the sum of the looked-up values, in input order -/
+theorem inputsValue_of_values (u : Utxo) (inputs : List Input) (vals : List Nat)
+    (h : inputs.mapM (fun i => (u.get? i.ref).map (·.value)) = some vals) :
+    inputsValue u inputs = .ok vals.sum := by
+  induction inputs generalizing vals with
+  | nil =>
+    simp only [List.mapM_nil, pure, Option.some.injEq] at h
+    subst h; rfl
+  | cons i rest ih =>
+    rw [List.mapM_cons] at h
+    simp only [inputsValue]
+    cases ho : u.get? i.ref with
+    | none => simp [ho] at h
+    | some o =>
+      cases hr : rest.mapM (fun i => (u.get? i.ref).map (·.value)) with
+      | none => simp [ho, hr] at h
+      | some vs =>
+        simp only [ho, hr, Option.map_some, Option.bind_eq_bind, Option.bind_some, pure, Option.some.injEq] at h
+        subst h
+        rw [ih vs hr]
+        simp [bind, Except.bind, pure, Except.pure]
+
+/-- conversely, whenever the model's sum is defined every input's spent output was found, and the sum is that of their values -/
+theorem values_of_inputsValue (u : Utxo) (inputs : List Input) (total : Nat) (h : inputsValue u inputs = .ok total) :
+    ∃ vals, inputs.mapM (fun i => (u.get? i.ref).map (·.value)) = some vals ∧ vals.sum = total := by
+  induction inputs generalizing total with
+  | nil =>
+    simp only [inputsValue, Except.ok.injEq] at h
+    exact ⟨[], by simp [pure], by simpa using h⟩
+  | cons i rest ih =>
+    simp only [inputsValue] at h
+    cases ho : u.get? i.ref with
+    | none => simp [ho] at h
+    | some o =>
+      simp only [ho] at h
+      cases hr : inputsValue u rest with
+      | error e => simp [hr, bind, Except.bind] at h
+      | ok r =>
+        simp only [hr, bind, Except.bind, pure, Except.pure, Except.ok.injEq] at h
+        obtain ⟨vs, hvs, hsum⟩ := ih r hr
+        refine ⟨o.value :: vs, ?_, ?_⟩
+        · rw [List.mapM_cons]
+          simp [ho, hvs, pure]
+        · simp [hsum, h]
+
+/-- the model's fee of a transaction is the translated function applied to **the values the model looks up**: `vals` is
+exactly the list of the values of the outputs spent by the inputs of `t`, found in the unspent set `u`, in input order (the
+hypothesis `h` determines `vals`; it holds for some `vals` whenever every input's spent output is in `u`), and the second
+argument is the list of the values of the outputs of `t`, in order -/
+theorem model_fee_as_translated (u : Utxo) (t : CTx) (vals : List Nat)
+    (h : t.tx.inputs.mapM (fun i => (u.get? i.ref).map (·.value)) = some vals) :
+    txFee u t = .ok (Gen.transaction_fee vals (t.tx.outputs.map (·.value))) := by
+  unfold txFee
+  rw [inputsValue_of_values u t.tx.inputs vals h, transaction_fee_eq]
+  simp [bind, Except.bind, pure, Except.pure, outputsValue]
+
+/-- and the model's fee is defined exactly when all those values are found; otherwise it is the `KeyError` of the look-up -/
+theorem model_fee_defined_iff (u : Utxo) (t : CTx) :
+    (∃ f, txFee u t = .ok f) ↔ ∃ vals, t.tx.inputs.mapM (fun i => (u.get? i.ref).map (·.value)) = some vals := by
+  constructor
+  · rintro ⟨f, hf⟩
+    unfold txFee at hf
+    cases hi : inputsValue u t.tx.inputs with
+    | error e => simp [hi, bind, Except.bind] at hf
+    | ok total =>
+      obtain ⟨vals, hv, _⟩ := values_of_inputsValue u t.tx.inputs total hi
+      exact ⟨vals, hv⟩
+  · rintro ⟨vals, hv⟩
+    exact ⟨_, model_fee_as_translated u t vals hv⟩
+
+/-- the weaker former statement, kept for its users: the translated function on *any* list of naturals with the sum the
+model computes (the list is not tied to the inputs; see `model_fee_as_translated` for the statement over the looked-up values) -/
+theorem model_fee_as_translated_of_sum (u : Utxo) (t : CTx) (total : Nat) (h : inputsValue u t.tx.inputs = .ok total)
     (ins : List Nat) (hins : ins.sum = total) :
     txFee u t = .ok (Gen.transaction_fee ins (t.tx.outputs.map (·.value))) := by
   unfold txFee
